@@ -193,6 +193,7 @@ func runC16(tier string, seed int64, si, sn int, rep *monitor.Report, note func(
 	accepted, rejected := 0, 0
 	var gate []GateCase
 	gateSeen := map[string]int{}
+	firstOf := map[string]controller.NodeGroupOptions{} // one configuration per class, for the files with several groups
 
 	judge := func(o controller.NodeGroupOptions, tag string) {
 		evals++
@@ -224,6 +225,9 @@ func runC16(tier string, seed int64, si, sn int, rep *monitor.Report, note func(
 			gclass = "safe"
 		} else if len(bad) == 1 {
 			gclass = bad[0]
+		}
+		if _, ok := firstOf[gclass]; !ok && (gclass != "safe" || len(problems) == 0) {
+			firstOf[gclass] = o
 		}
 		if gateSeen[gclass] < 3 || (gclass == "safe" && gateSeen[gclass] < 8) {
 			gateSeen[gclass]++
@@ -302,6 +306,31 @@ func runC16(tier string, seed int64, si, sn int, rep *monitor.Report, note func(
 	// (3) YAML = JSON, intended values, documented keys honoured (shard 0)
 	if si == 0 {
 		evals += c16Decoding(rep, &gate)
+		// files with several node groups: one unsafe group first, in the middle or last among safe ones must be refused
+		if safe, ok := firstOf["safe"]; ok {
+			var classes []string
+			for c := range firstOf {
+				if c != "safe" {
+					classes = append(classes, c)
+				}
+			}
+			sort.Strings(classes)
+			named := func(o controller.NodeGroupOptions, n string) map[string]interface{} {
+				if o.Name != "" {
+					o.Name = n
+				}
+				return optsMap(o)
+			}
+			for _, c := range classes {
+				bad := firstOf[c]
+				for pos := 0; pos < 3; pos++ {
+					groups := []map[string]interface{}{named(safe, "safe-a"), named(safe, "safe-b")}
+					groups = append(groups[:pos], append([]map[string]interface{}{named(bad, "unsafe")}, groups[pos:]...)...)
+					gate = append(gate, GateCase{Name: fmt.Sprintf("multi-%s-pos%d", strings.ReplaceAll(strings.ReplaceAll(c, "<", "lt"), ">", "gt"), pos), YAML: renderYAML(groups), Violated: safeToRun(bad), Problems: len(controller.ValidateNodeGroup(bad))})
+				}
+			}
+			gate = append(gate, GateCase{Name: "multi-all-safe", YAML: renderYAML([]map[string]interface{}{named(safe, "safe-a"), named(safe, "safe-b"), named(safe, "safe-c")})})
+		}
 		// hand the gate cases to the driver
 		if dir := os.Getenv("VERIF_GATE_DIR"); dir != "" {
 			b, _ := json.MarshalIndent(gate, "", " ")
